@@ -101,6 +101,48 @@ def jacobian_rank(sc, descs):
     return int((sv > 1e-6 * sv[0]).sum()) if sv.size and sv[0] > 0 else 0
 
 
+def lin16_rank(sc, descs):
+    """16-term models: rank and rank margin of the homogeneous linear system the documented equation gives for the standards `descs`
+    (vnacal_new(3)): T16: M (Tx S + Tm) = Ts S + Ti, one equation per measurement row for every *column* of S that the standard
+    defines; U16: (Um - S Ux) M = S Us - Ui, one per measurement column for every defined *row* of S.  A standard on a subset of the
+    ports defines the rows / columns of its own ports (the other ports see unrelated terminations: zero transmission, unknown
+    reflection).  The terms are determined (up to the common factor) iff the rank is 4 p^2 - 1."""
+    p = sc.p
+    rows = []
+    for d in descs:
+        S = std_S(sc, d)
+        M = sc.box.measure(S, 0)
+        ports = [d[1] - 1] if d[0] == 'reflect' else [d[1] - 1, d[2] - 1]
+        for q in ports:
+            for r in range(p):
+                co = np.zeros((4, p, p), complex)          # blocks: s, i, x, m
+                if sc.typ == 'T16':
+                    # row r, column q of  Ts S + Ti - M Tx S - M Tm = 0
+                    for k in range(p):
+                        co[0, r, k] += S[k, q]
+                        for l in range(p):
+                            co[2, k, l] -= M[r, k] * S[l, q]
+                        co[3, k, q] -= M[r, k]
+                    co[1, r, q] += 1
+                else:
+                    # row q, column r of  Um M - S Ux M - S Us + Ui = 0
+                    for k in range(p):
+                        co[0, q, k] += M[k, r]             # Um
+                        for l in range(p):
+                            co[2, l, k] -= S[q, l] * M[k, r]   # Ux
+                        co[3, k, r] -= S[q, k]             # Us
+                    co[1, q, r] += 1                       # Ui
+                rows.append(co.reshape(-1))
+    if not rows:
+        return 0, 0.0
+    sv = np.linalg.svd(np.array(rows), compute_uv=False)
+    sv = np.concatenate([sv, np.zeros(max(0, 4 * p * p - len(sv)))])
+    full = 4 * p * p - 1
+    rank = int((sv > 1e-9 * sv[0]).sum())
+    margin = float(sv[full - 1] / sv[0]) if sv[0] > 0 else 0.0
+    return rank, margin
+
+
 def run(chk):
     rng = random.Random(chk.seed * 47 + 20)
     broken = []
@@ -111,7 +153,7 @@ def run(chk):
     quick = chk.tier == 'quick'
     runs = []
     reps = (2 if quick else 12) * (3 if broken else 1)
-    for _ in range(reps):
+    for rep_ in range(reps):
         for typ in calsim.TYPES:
             for n in ([1, 2] if quick else [1, 2, 3]):
                 if typ in ('T16', 'U16') and n > 2:
@@ -119,9 +161,15 @@ def run(chk):
                 sc = calsim.Scenario(rng, typ, n, n, 1, form=rng.choice(['m', 'ab'])).begin()
                 L = standard_list(sc)
                 rng.shuffle(L)
-                if len(L) > 14:
+                sixteen = typ in ('T16', 'U16')
+                if sixteen and n == 2 and (rep_ == 0 or rng.random() < 0.3):
+                    # few fully specified standards first, then the single reflects: the set becomes determining only through every
+                    # equation the reflects contribute (one per measurement row / column)
+                    firstd = next(e for e in L if e[0][0] == 'double')
+                    L.sort(key=lambda e: 1 if e is firstd else (0 if e[0][0] == 'through' else (2 if e[0][0] == 'reflect' else 3)))
+                elif len(L) > 14:
                     L = L[:14] if rng.random() < 0.3 else L
-                full_rank = jacobian_rank(sc, [d for d, _ in standard_list(sc)])
+                full_rank = 4 * n * n - 1 if sixteen else jacobian_rank(sc, [d for d, _ in standard_list(sc)])
                 if full_rank == 0:
                     continue
                 dut = sc.random_dut()
@@ -134,7 +182,12 @@ def run(chk):
                     nvalues += n * n
                     sc.lines.append('cal solve %d' % sc.n)
                     isolve = len(sc.lines) - 1
-                    det = jacobian_rank(sc, descs) == full_rank
+                    if sixteen:
+                        # the documented linear equations decide; a margin keeps nearly dependent sets out of the claim
+                        rk, margin = lin16_rank(sc, descs)
+                        det = rk == full_rank and margin > 1e-4
+                    else:
+                        det = jacobian_rank(sc, descs) == full_rank
                     iapply = None
                     if det:
                         sc.lines.append('cal add_calibration %d %s %d' % (sc.c, vlib.hexbytes(b'k%d' % k), sc.n))
